@@ -376,6 +376,30 @@ func execC12(t *testing.T, p *sim.Program, c *sim.Ctx) {
 			}
 		}
 	}
+	// phase 2b: a TRANSIENT fault - one read returns part of what was asked for together with an error, later reads
+	// succeed. The operation has not received the bytes it asked for and must report the error (io.ReadFull semantics);
+	// the hidden one-octet pre-read swallows errors by design and is not judged.
+	for k := 0; k < kmax; k += step {
+		fr := newReader()
+		fr.FaultAt, fr.FaultKind, fr.Sticky = k, sim.RFPartialErr, false
+		outs, err := c12Run(cs, fr)
+		c.OpsDone++
+		if !fr.Fired || (k < len(fr.Reads) && fr.Reads[k] == 1 && k == 0 && cs.usesPre) {
+			continue
+		}
+		c.Hit("fault:reader-transient-partial-error")
+		c.OutErr("fault1", err)
+		if err == nil {
+			c.Fail("rng-failure-ignored", 1, opn, "%s returned no error although read %d of %d of the random source returned an error together with only part of the requested bytes (later reads succeed)", opn, k, kmax)
+			return
+		}
+		for _, o := range outs {
+			if len(o) != 0 {
+				c.Fail("output-with-error", 1, opn, "%s returned %d output bytes together with the error after a transient source failure at read %d", opn, len(o), k)
+				return
+			}
+		}
+	}
 	if faults > 0 {
 		c.Nontriv = true
 	}
